@@ -176,7 +176,7 @@ func opPatterns(mask uint64, n int) [][]hOp {
 func c16(args []string) int {
 	run := NewRun("C16", args)
 	r := run.R
-	run.Sum.Rule = "flags: thread sets (2 threads x 1-2 ops, 3 threads x 1 op: EVERY Set/Clear pattern, every interleaving of the real Set/ClearHealthFlag under the yield-hook scheduler; 3 threads x 2 ops and 4 threads: random schedules in quick, more in thorough) x initial words; a case is non-trivial when >=2 threads interleave (schedule is not a concatenation of whole threads); distinct by (w0, programs, schedule). thresholds: (unhealthy,healthy) in 0..4 x init flag x EVERY success/failure sequence up to length 10 (finder), ternary sequences incl. timeouts of length 5 and random long ones to Coq; non-trivial when the sequence has at least one transition; distinct by (thresholds, init, sequence). loop: the real sessionChecker.Start with a scripted session (check latencies below the timeout, between timeout and the next check, beyond the next check; timeout 60 ms, interval 80 ms), event order from observed timestamps, scenarios with order-relevant events closer than 15 ms or with two disagreeing runs are skipped; non-trivial when a response arrives after its timeout. store: histories over the real cluster manager (1-2 addresses in up to 3 clusters: append, remove while healthy / flagged, re-add, UpdateClusterHosts, set/clear through any live host object incl. retained old ones and stand-alone objects), every live host object of an address read after every operation; non-trivial when an address had >= 3 host objects. transfer: UpdateClusterHosts replacing the host of an address in a slow-start cluster while checker / outlier writers set or clear their condition at forced points (before the update, at each method the replacement code calls on the old host - before and after the underlying read -, after the update) x initial words x writer programs; non-trivial when a writer ran between a flag read of the replacement and its end."
+	run.Sum.Rule = "flags: thread sets (2 threads x 1-2 ops, 3 threads x 1 op: EVERY Set/Clear pattern, every interleaving of the real Set/ClearHealthFlag under the yield-hook scheduler; 3 threads x 2 ops and 4 threads: random schedules in quick, more in thorough) x initial words; a case is non-trivial when >=2 threads interleave (schedule is not a concatenation of whole threads); distinct by (w0, programs, schedule). thresholds: (unhealthy,healthy) in 0..4 x init flag x EVERY success/failure sequence up to length 10 (finder), ternary sequences incl. timeouts of length 5 and random long ones to Coq; non-trivial when the sequence has at least one transition; distinct by (thresholds, init, sequence). loop: the real sessionChecker.Start with a scripted session (check latencies below the timeout, between timeout and the next check, beyond the next check; timeout 60 ms, interval 80 ms), event order from observed timestamps, scenarios with order-relevant events closer than 15 ms or with two disagreeing runs are skipped; non-trivial when a response arrives after its timeout. store: histories over the real cluster manager (1-2 addresses in up to 3 clusters: append, remove while healthy / flagged, re-add, UpdateClusterHosts, set/clear through any live host object incl. retained old ones and stand-alone objects), every live host object of an address read after every operation; non-trivial when an address had >= 3 host objects. transfer: UpdateClusterHosts replacing the host of an address in a slow-start cluster while checker / outlier writers set or clear their condition at forced points (before the update, at each method the replacement code calls on the old host - before and after the underlying read -, after the update) x initial words x writer programs; non-trivial when a writer ran between a flag read of the replacement and its end. lifecycle: histories on the real healthChecker over 2-3 addresses (check results per address, SetHealthCheckerHostSet dropping / adding / keeping addresses, Stop + new checker), thresholds 1..3, FAILED_ACTIVE_HC of every address read after every operation."
 	hInfo = cluster.NewClusterInfo(v2.Cluster{Name: "c16", LbType: v2.LB_RANDOM})
 	cluster.VerifYieldFn = hYield
 	defer func() { cluster.VerifYieldFn = nil }()
@@ -502,6 +502,7 @@ func c16(args []string) int {
 	c16loop(run)
 	c16store(run)
 	c16xfer(run)
+	c16life(run)
 	run.Sum.Exhaustive = false
 	_ = strings.Join
 	return run.Finish()
